@@ -670,7 +670,7 @@ def sec_purity(rec, patches=None):
     sig, scale, r = real("sigma"), real("scale"), real("r")
     hyps = [scale.e > 0, sig.e > 0]
     dsym = [real(f"d{k}") for k in range(4)]
-    ndi.distance_transform_edt = lambda x: to_symarray(dsym).reshape(np.shape(x))
+    ndi.distance_transform_edt = lambda x, *a, **k: to_symarray(dsym).reshape(np.shape(x))
     masks = [np.array([[[True, False], [False, True]]]), np.array([[[False, True], [True, True]]])]
     cases = []
     for mk in masks:
